@@ -46,8 +46,19 @@ structure GemmRepl where
   transB : Bool
   deriving Repr, DecidableEq
 
-/-- `check`: `has_rank(input_a, 2) and has_rank(input_b, 2)`. -/
-def matmulAddCheck (rankA rankB : Option Nat) : Bool := rankA == some 2 && rankB == some 2
+/-- `check` **before commit be37f51**: `has_rank(input_a, 2) and has_rank(input_b, 2)` only (finding D16b, fixed). -/
+def matmulAddCheckPrefix (rankA rankB : Option Nat) : Bool := rankA == some 2 && rankB == some 2
+
+/-- The guard added by commit be37f51: `C` has a known shape of rank ≤ 2 and, aligned from the right against
+`(N, M)`, every dim of `C` is `1` or equals the output dim (`same_dim`; static dims in the model). -/
+def cGuard (m n : Nat) (cShape : Option (List Nat)) : Bool :=
+  match cShape with
+  | none => false
+  | some cs => cs.length ≤ 2 && (List.zip cs.reverse [n, m]).all (fun (c, o) => c == 1 || c == o)
+
+/-- `_MatMulAddToGemmBase.check` as it is now. -/
+def matmulAddCheck (rankA rankB : Option Nat) (m n : Nat) (cShape : Option (List Nat)) : Bool :=
+  rankA == some 2 && rankB == some 2 && cGuard m n cShape
 
 /-- Gemm requires `C` unidirectionally broadcastable to `(M, N)`; `Add` broadcasts both ways.  The
 rewrite is shape-preserving exactly when broadcasting `C` against `(M,N)` gives `(M,N)` (finding D16b otherwise). -/
@@ -82,11 +93,19 @@ structure PadConv where
   axes : OptConst (List Int)         -- Pad input 3
   autoPad : String                   -- Conv attribute `auto_pad` (default "NOTSET")
   convPads : Option (List Int)       -- Conv attribute `pads`
-  /-- ConvInteger only: an `x_zero_point` input that is not known to be 0 (finding D16a). -/
-  nonzeroZeroPoint : Bool := false
+  /-- ConvInteger only: the `x_zero_point` input (third input), as `FuseConvIntegerPad.check` sees it. -/
+  zeroPoint : OptConst Int := .absent
 
-/-- `check` then `rewrite`: the new `pads` attribute. -/
-def padConvRun (p : PadConv) : Outcome (List Int) :=
+/-- The guard added by commit 470d8b0 (finding D16a, fixed): a present `x_zero_point` must be a constant equal to 0. -/
+def PadConv.zeroPointOk (p : PadConv) : Bool :=
+  match p.zeroPoint with
+  | .absent => true
+  | .const v => v == 0
+  | .dynamic => false
+
+/-- `_FuseConvPadBase.check` + `FuseConvPad.check`, then `rewrite`: the new `pads` attribute (this was the whole rule for
+ConvInteger before commit 470d8b0). -/
+def padConvRunBase (p : PadConv) : Outcome (List Int) :=
   match p.xRank with
   | none => .nofire
   | some rank =>
@@ -122,6 +141,12 @@ def padConvRun (p : PadConv) : Outcome (List Int) :=
               match p.convPads with
               | some cp => .fire (List.zipWith (· + ·) cp newPads)
               | none => .fire newPads
+
+/-- `FuseConvPad` / `FuseConvIntegerPad` as they are now: the base check (which may raise), then the zero-point guard. -/
+def padConvRun (p : PadConv) : Outcome (List Int) :=
+  match padConvRunBase p with
+  | .fire pads => if p.zeroPointOk then .fire pads else .nofire
+  | o => o
 
 /-- Conv output length on one spatial axis (`floor`), explicit pads. -/
 def convOutLen (x k s d pb pe : Nat) : Nat :=
